@@ -29,11 +29,26 @@ def _load():
 ENGINES = _load()
 
 
+def _enabled_extras():
+    """Composition engines whose EXTRA sub-checks are switched on: tools/extras_enabled.json (integrator-owned), plus
+    the comma-separated names in $VERIF_EXTRAS (for an engine under development; `all` enables every binding)."""
+    import json
+    env = os.environ.get("VERIF_EXTRAS", "")
+    if env == "all":
+        return None
+    try:
+        names = set(json.load(open(os.path.join(os.path.dirname(_HERE), "..", "tools", "extras_enabled.json"))))
+    except OSError:
+        return None
+    return names | {x for x in env.split(",") if x}
+
+
 def extras_of(prop):
     """Additional sub-checks contributed by other bindings (composition engines): module-level EXTRA = {prop_id: fn(rep)}."""
     out = []
+    enabled = _enabled_extras()
     for name in _modules():
-        if name in BROKEN:
+        if name in BROKEN or (enabled is not None and name not in enabled):
             continue
         mod = importlib.import_module("harness.bindings." + name)
         fn = getattr(mod, "EXTRA", {}).get(prop)
